@@ -443,6 +443,9 @@ func (w *csWorld) runList(b Beh) []J {
 	if len(b.Steps) == 0 || json.Unmarshal(b.Steps[0], &s) != nil {
 		return nil
 	}
+	if s.A == "WriteList" {
+		return w.runWList(b, s)
+	}
 	// concrete ids: two readable cells chosen by seed, the write-only cell, a missing id
 	rng := rngFor(w.seed, 14000000+b.ID)
 	var readable []*csCell
@@ -494,6 +497,102 @@ func (w *csWorld) runList(b Beh) []J {
 			o["idsok"], o["values"], o["statuses"], o["zero"] = idsok, vals, sts, zero
 		}
 	}
+	return []J{o}
+}
+
+// runWList sends one PUT with a list of entries: two writable cells, a read-only cell, ids that do not exist.
+func (w *csWorld) runWList(b Beh, s csStep) []J {
+	rng := rngFor(w.seed, 15000000+b.ID)
+	var writable, readonly []*csCell
+	for _, cl := range w.cells {
+		p := permSet(cl.c)
+		if has(p, "pr") && has(p, "pw") {
+			writable = append(writable, cl)
+		} else if has(p, "pr") {
+			readonly = append(readonly, cl)
+		}
+	}
+	if len(writable) < 2 || len(readonly) == 0 {
+		return nil
+	}
+	i1 := rng.Intn(len(writable))
+	i2 := (i1 + 1 + rng.Intn(len(writable)-1)) % len(writable)
+	w1, w2, ro := writable[i1], writable[i2], readonly[rng.Intn(len(readonly))]
+	differing := func(cl *csCell) (interface{}, bool) {
+		for _, t := range []string{"v1", "v2", "v0"} {
+			if !equalGo(cl.c.Value, cl.toks[t]) {
+				return cl.toks[t], true
+			}
+		}
+		return cl.toks["v1"], false
+	}
+	type ent struct {
+		cl     *csCell
+		before interface{}
+		wrote  interface{}
+		tell   bool
+	}
+	var items []J
+	kinds := []string{}
+	want := [][2]uint64{}
+	ents := []ent{}
+	for _, k := range s.Ids {
+		var cl *csCell
+		switch k {
+		case "w1":
+			cl = w1
+		case "w2":
+			cl = w2
+		case "ro":
+			cl = ro
+		}
+		kinds = append(kinds, k)
+		if cl == nil {
+			aid, iid := []uint64{1, 99, w1.aid}[rng.Intn(3)], uint64(9000+rng.Intn(100))
+			items = append(items, J{"aid": aid, "iid": iid, "value": 1})
+			want = append(want, [2]uint64{aid, iid})
+			ents = append(ents, ent{})
+			continue
+		}
+		v, tell := differing(cl)
+		items = append(items, J{"aid": cl.aid, "iid": cl.c.ID, "value": v})
+		want = append(want, [2]uint64{cl.aid, cl.c.ID})
+		ents = append(ents, ent{cl: cl, before: cl.c.Value, wrote: v, tell: tell})
+	}
+	body, _ := json.Marshal(J{"characteristics": items})
+	m, err := w.conn.Do("PUT", "/characteristics", ref.CTJSON, body)
+	o := J{"ev": "wlist", "case": b.ID, "i": 0, "kinds": kinds, "http": -1, "n": 0, "idsok": false, "statuses": []bool{}, "zero": []bool{}, "applied": []bool{}}
+	if err == nil {
+		o["http"] = m.Status
+		if len(m.Body) > 0 {
+			if es, _, derr := decodeEntries(m.Body); derr == nil {
+				o["n"] = len(es)
+				idsok := len(es) == len(want)
+				sts, zero := []bool{}, []bool{}
+				for i, e := range es {
+					if i < len(want) && (e.Aid != want[i][0] || e.Iid != want[i][1]) {
+						idsok = false
+					}
+					sts = append(sts, e.Status != nil)
+					zero = append(zero, e.Status != nil && *e.Status == 0)
+				}
+				o["idsok"], o["statuses"], o["zero"] = idsok, sts, zero
+			}
+		}
+	}
+	applied := []bool{}
+	for _, e := range ents {
+		switch {
+		case e.cl == nil:
+			applied = append(applied, false)
+		case has(permSet(e.cl.c), "pw"):
+			applied = append(applied, equalGo(e.cl.c.Value, e.wrote)) // the application sees what was written
+		default:
+			applied = append(applied, e.tell && !equalGo(e.cl.c.Value, e.before)) // the value moved although it may not be written
+		}
+	}
+	o["applied"] = applied
+	w.conn.TakeEvents()
 	return []J{o}
 }
 
